@@ -194,6 +194,37 @@ hidden_fill(void *p, size_t n, uint32_t salt)
 
 /* ------------------------------------------------------------------ statics */
 extern uint8_t __start_isal_data[] __attribute__((weak)), __stop_isal_data[] __attribute__((weak));
+
+/* The FIPS self-test status word is a local label of asm_self_tests.asm.  It is located differentially: the library's own
+ * setter is called with failed / passed / failed and the one aligned word of the library's data section that reads 1, 0, 1
+ * is the status word (works whatever else the setter does with its argument).  The word is then driven by direct stores. */
+volatile int *
+find_self_test_word(void (*setter)(int))
+{
+        size_t n = (size_t) (__stop_isal_data - __start_isal_data) / 4;
+        volatile int *w = (volatile int *) __start_isal_data, *found = NULL;
+        uint8_t *cand = calloc(n ? n : 1, 1);
+        int seq[3] = { 1, 0, 1 };
+        for (size_t i = 0; i < n; i++)
+                cand[i] = 1;
+        for (int k = 0; k < 3; k++) {
+                setter(seq[k]);
+                for (size_t i = 0; i < n; i++)
+                        if (w[i] != seq[k])
+                                cand[i] = 0;
+        }
+        int cnt = 0;
+        for (size_t i = 0; i < n; i++)
+                if (cand[i]) {
+                        found = &w[i];
+                        cnt++;
+                }
+        free(cand);
+        if (cnt != 1)
+                return NULL;
+        *found = 2; /* SELF_TEST_NOT_DONE */
+        return found;
+}
 extern uint8_t __start_isal_bss[] __attribute__((weak)), __stop_isal_bss[] __attribute__((weak));
 static uint8_t *st_copy_data, *st_copy_bss;
 void
